@@ -283,6 +283,9 @@ class Sweep(Algorithm):
                 if isinstance(ortho, dict):
                     self.ortho_to_envs.append(MPSEnvironment(self.psi, **ortho))
                 else:
+                    # Gauge the charges of `ortho` (not of `psi`) if the outer virtual legs differ:
+                    # the environment must keep a reference to `self.psi`, which is updated during the sweeps.
+                    ortho = self.psi._gauge_compatible_vL_vR(ortho)
                     self.ortho_to_envs.append(MPSEnvironment(self.psi, ortho))
         # done
 
